@@ -115,19 +115,21 @@ def table_index(vars_, order_vars, asg):
     return i
 
 
-def pair_task(k, op, order_vars=None):
-    """all ordered pairs of k-variable functions: canonicity, apply(op), structure of everything live"""
+def pair_task(k, op, order_vars=None, fixed=None):
+    """all ordered pairs of k-variable functions: canonicity, apply(op), structure of everything live.
+    fixed: {bit name: bool} pins some truth-table bits (e.g. one operand a literal), the rest stay unknown"""
     import importlib
     OB = importlib.import_module('pyModelChecking.BDD.OBDD')
     from pyModelChecking.BDD.ordering import ListOrdering
+    fixed = fixed or {}
     vars_ = ALLV[:k]
     order_vars = list(order_vars or vars_)
     nb = 1 << k
-    names = ['f%d' % i for i in range(nb)] + ['g%d' % i for i in range(nb)]
+    names = [n_ for n_ in ['f%d' % i for i in range(nb)] + ['g%d' % i for i in range(nb)] if n_ not in fixed]
     BB, vm, ctx, fr = setup(names)
     t0 = time.time()
-    f = [var('f%d' % i) for i in range(nb)]
-    g = [var('g%d' % i) for i in range(nb)]
+    f = [fixed['f%d' % i] if 'f%d' % i in fixed else var('f%d' % i) for i in range(nb)]
+    g = [fixed['g%d' % i] if 'g%d' % i in fixed else var('g%d' % i) for i in range(nb)]
     F = build(ctx, f, order_vars)
     G = build(ctx, g, order_vars)
     OA = ctx.call(OB.OBDD, [F, list(order_vars)], {})
@@ -156,18 +158,18 @@ def pair_task(k, op, order_vars=None):
     encoded = sorted(vm.encoded)
     kinds = exc_kinds(fr)
     d = Decider(timeout_ms=600000)
-    f2 = [var('f%d' % i) for i in range(nb)]
-    g2 = [var('g%d' % i) for i in range(nb)]
+    f2 = [fixed['f%d' % i] if 'f%d' % i in fixed else var('f%d' % i) for i in range(nb)]
+    g2 = [fixed['g%d' % i] if 'g%d' % i in fixed else var('g%d' % i) for i in range(nb)]
     eq_tab = b_and(*[b_iff(x, y) for x, y in zip(f2, g2)])
     want = [eq_tab, eq_tab] + f2 + g2
     if op in ('and', 'or', 'xor'):
         pyop = {'and': b_and, 'or': b_or, 'xor': b_xor}[op]
         want += [pyop(x, y) for x, y in zip(f2, g2)]
     r = d.differ(impl, want, bad)
-    rec = dict(kind='pair', k=k, op=op, order=order_vars, verdict=r, encode_s=round(t1 - t0, 2), live_nodes=nlive, exc=kinds, encoded=encoded)
+    rec = dict(kind='pair', k=k, op=op, order=order_vars, verdict=r, encode_s=round(t1 - t0, 2), live_nodes=nlive, exc=kinds, encoded=encoded, fixed={k_: bool(v) for k_, v in fixed.items()})
     if r == 'sat':
-        rec['model'] = d.differ_model(impl, want, bad)
-    rec['twin'] = d.holds(same_root)
+        rec['model'] = dict(d.differ_model(impl, want, bad), **{k_: bool(v) for k_, v in fixed.items()})
+    rec['twin'] = d.holds(same_root) if not is_c(same_root) else 'sat'
     rec['audit'] = d.audit(batch=1000)
     rec.update(d.stats())
     d.close()
